@@ -28,10 +28,14 @@ MANIFEST = dict(
     'cross-nested and cross-nested-with-mu for every nest list (partitions or not, alone alternatives, overlapping nests, any alpha >= 0, mu_m != 0, mu != 0); '
     'unavailable alternatives are irrelevant (removing them from the dictionaries and the nests changes nothing); ordered '
     'models telescope to one for any cdf and lie in [0,1] for a monotone cdf with values in [0,1] (proved for the logistic cdf; for Phi from Mathlib\'s cdf of the standard Gaussian); '
-    'log versions equal the log of the probability versions. '
+    'log versions equal the log of the probability versions; check_partition accepts exactly the pairwise disjoint covers (any two positions), its verdict and that of check_validity '
+    'do not depend on the listing order of the nests, an alternative written in two nests is refused by the nested functions wherever the two nests stand, and for an accepted structure '
+    'the nested / cross-nested (± mu) probabilities do not depend on the listing order. '
     'Tie: correspondence on real model expressions (models.logit/loglogit/nested/lognested/nested_mev_mu/lognested_mev_mu/cnl/logcnl/cnlmu/logcnlmu/mev/logmev/'
     'ordered_logit/ordered_probit, tuple and object nest syntax, numeric and Beta parameters) evaluated by the real engine for every alternative on database rows, '
-    'plus the property oracle on the real outputs (range, sum, zero-if-unavailable, shift, log versions, dropped-unavailable relation).',
+    'plus the property oracle on the real outputs (range, sum, zero-if-unavailable, shift, log versions, dropped-unavailable relation); structures with 3-5 nests '
+    '(valid, an alternative shared by any two nests, a member outside the choice set) asked in every / 8 listing orders through the four nested and four cross-nested entry points, '
+    'check_partition / check_intersection and the three ln G_i builders: same outcome and same values in every order, overlaps refused.',
     design='DESIGN.md §5 C05',
     technique='Lean 4 theorems over an executable semantic model (NumOps: Float driver / real proofs) + differential correspondence with the real engine + property oracle on real outputs',
     note='Trusted: real vs IEEE arithmetic (overflow of exp not modelled; the engine shifts utilities, the model does not), the engine evaluation of the expression trees. '
@@ -50,7 +54,8 @@ ASSUMPTIONS = [
 ]
 RULE = (
     'a configuration = family x alternatives (2-7, non-contiguous labels) x utilities x availability x nest structure x parameters, evaluated for every alternative on 1-3 rows; '
-    'non-trivial = at least one unavailable alternative, or a nest with mu_m != 1 and >= 2 members, or an overlapping nest, or >= 3 ordered values'
+    'non-trivial = at least one unavailable alternative, or a nest with mu_m != 1 and >= 2 members, or an overlapping nest, or >= 3 ordered values; '
+    'nest-order stream: a configuration = one structure with >= 3 nests (counted once, asked in all its listing orders up to 3 nests, 8 orders beyond), always non-trivial'
 )
 
 TOL = 1e-9
@@ -726,7 +731,7 @@ def compare_model(res, case, ans, p, lp):
             if not is_close(mp[i], p[alt][r]):
                 res.diverge(f'{fam}: probability of alternative {alt}, row {r}', case, mp[i], p[alt][r], where=where_of(case))
                 return
-            if not is_close(ml[i], lp[alt][r]):
+            if lp is not None and not is_close(ml[i], lp[alt][r]):
                 res.diverge(f'{fam}: log probability of alternative {alt}, row {r}', case, ml[i], lp[alt][r], where=where_of(case))
                 return
 
@@ -795,20 +800,20 @@ def gen_malformed(rng, family):
     cnl = family in ('cnl', 'cnlmu')
     members = lambda m: m['alts'] if 'alts' in m else [t[0] for t in m['alphas']]  # noqa: E731
     if kind == 'overlap':
-        m = n['list'][0]
-        others = [a for a in alts if a not in members(m)]
-        src = members(m)[0]
+        # a member of one nest is also written in another nest; the two nests stand anywhere in the tuple
         if len(n['list']) < 2:
+            src = members(n['list'][0])[0]
             mu = gen_param(rng, 1, 5, 'mu_extra')
-            n['list'].append({'mu': mu, 'alphas': [[src, 0.5, 'num']]} if cnl else {'mu': mu, 'alts': [src]})
+            n['list'].insert(rng.randint(0, 1), {'mu': mu, 'alphas': [[src, 0.5, 'num']]} if cnl else {'mu': mu, 'alts': [src]})
         else:
-            m2 = n['list'][1]
+            i, j = rng.sample(range(len(n['list'])), 2)
+            src = rng.choice(members(n['list'][i]))
+            m2 = n['list'][j]
             if cnl:
                 if src not in members(m2):
                     m2['alphas'].append([src, 0.5, 'num'])
             elif src not in m2['alts']:
                 m2['alts'].append(src)
-        _ = others
     elif kind == 'outside':
         new = max(alts) + 3
         m = rng.choice(n['list'])
@@ -849,6 +854,282 @@ def check_malformed(ctx, res, case):
             res.diverge(f'{fam}: outcome of a malformed nest specification ({case["malformed"]})', case, exp, rp.get('msg', got), where=where_of(case))
 
     ctx.batch.add_many(model_requests(case)[:1], cb)
+
+
+# --------------------------------------------------------------------------- nest structures with >= 3 nests, every listing order
+#
+# A nest structure is a *set* of nests: what a model function answers (a refusal, or the
+# probabilities) is a function of the structure, not of the order in which the user lists the nests
+# (Lean: C05.validation_order_irrelevant, C05.nested_order_irrelevant, C05.cnl_order_irrelevant).
+# The nested logit is defined on partitions only (`:raise BiogemeError: if the definition of the
+# nests is invalid`): an alternative that belongs to two nests - whichever two, wherever they stand
+# in the tuple - must be refused by every nested entry point (Lean: C05.partition_iff,
+# C05.nested_overlap_refused).
+
+
+def nest_members(m):
+    return list(m['alts']) if 'alts' in m else [t[0] for t in m['alphas']]
+
+
+def shared_alternatives(lists):
+    """independent oracle of `check_partition`: the alternatives that belong to two nests standing at
+    different positions (an alternative written twice inside one nest is not an overlap)"""
+    out = []
+    for i, a in enumerate(lists):
+        for j, b in enumerate(lists):
+            if i < j:
+                out += [x for x in dict.fromkeys(a) if x in b and x not in out]
+    return out
+
+
+def gen_orders(rng, nn):
+    """listing orders of nn nests: all of them up to 3 nests, else the written order, its reverse,
+    two rotations and random ones"""
+    import itertools
+
+    if nn <= 3:
+        return [list(p) for p in itertools.permutations(range(nn))]
+    ident = list(range(nn))
+    orders = [ident, ident[::-1], ident[1:] + ident[:1], ident[-1:] + ident[:-1]]
+    while len(orders) < 8:
+        p = ident[:]
+        rng.shuffle(p)
+        if p not in orders:
+            orders.append(p)
+    return orders
+
+
+def gen_structure(rng, family, kind=None):
+    """a configuration with at least three nests, so that a listing order has nests that are not
+    neighbours.  kind: 'valid'; 'overlap' (nested families: a member of one nest is also written in
+    another nest, any two positions); 'outside' (a nest lists a label that is not in the choice set)"""
+    cnl = family in ('cnl', 'cnlmu')
+    kind = kind or rng.choice(['valid', 'overlap', 'overlap'] if not cnl else ['valid', 'valid', 'outside'])
+    if kind == 'overlap' and rng.random() < 0.15:
+        kind = 'outside'
+    k = rng.randint(4, 8)
+    nn = rng.randint(3, min(5, k))
+    case = gen_case(rng, family, k=k)
+    alts = case['alts']
+    if cnl:
+        for _ in range(50):
+            if len(case['nests']['list']) >= 3:
+                break
+            case['nests'] = gen_cnl_nests(rng, alts)
+        if len(case['nests']['list']) < 3:
+            pool = list(alts)
+            case['nests']['list'] = [
+                {'mu': gen_param(rng, 1, 5, f'mu_c{j}'),
+                 'alphas': [[a, dyadic(rng, 0.0625, 1), 'num'] for a in rng.sample(pool, rng.randint(1, len(pool)))]}
+                for j in range(3)]
+    else:
+        order = list(alts)
+        rng.shuffle(order)
+        lists = [[a] for a in order[:nn]]
+        for a in order[nn:]:
+            if rng.random() < 0.2:
+                continue  # alone
+            lists[rng.randrange(nn)].append(a)
+        for l in lists:
+            rng.shuffle(l)
+        n = case['nests']
+        n['list'] = [{'mu': gen_param(rng, 1, 5, f'mu_n{j}'), 'alts': l} for j, l in enumerate(lists)]
+        n.pop('reuse', None)
+        gen_nest_names(rng, n)
+    n = case['nests']
+    nn = len(n['list'])
+    if kind == 'overlap' and not cnl:
+        for _ in range(rng.choice([1, 1, 2])):
+            i, j = rng.sample(range(nn), 2)
+            x = rng.choice(n['list'][i]['alts'])
+            if x not in n['list'][j]['alts']:
+                n['list'][j]['alts'].insert(rng.randint(0, len(n['list'][j]['alts'])), x)
+    elif kind == 'outside':
+        m = rng.choice(n['list'])
+        new = max(alts) + rng.randint(1, 4)
+        if cnl:
+            m['alphas'].insert(rng.randint(0, len(m['alphas'])), [new, 0.5, 'num'])
+        else:
+            m['alts'].insert(rng.randint(0, len(m['alts'])), new)
+    else:
+        kind = 'valid'
+    case['stream'] = 'nest_orders'
+    case['structure'] = kind
+    case['orders'] = gen_orders(rng, nn)
+    return case
+
+
+def permuted(case, order):
+    c = copy.deepcopy(case)
+    c['nests']['list'] = [c['nests']['list'][j] for j in order]
+    c.pop('orders', None)
+    return c
+
+
+def real_outcome(case, log):
+    """does the entry point accept the specification?  (the expression is built for one alternative,
+    not evaluated: the nest validation happens when the model function is called)"""
+    _quiet()
+    fam = case['family']
+    try:
+        V = {a: mk_util(u) for a, u in zip(case['alts'], case['util'])}
+        av = mk_av(case)
+        fn = model_function(fam, log)
+        nests = mk_nests(case)
+        c = case['alts'][0]
+        if fam in ('nested', 'cnl'):
+            fn(V, av, nests, c)
+        else:
+            fn(V, av, nests, c, mk_param(case['mu']))
+        return 'ok', ''
+    except Exception as e:  # noqa: BLE001
+        return core.exc_kind(e), f'{type(e).__name__}: {e}'[:300]
+
+
+def real_validation(case):
+    """the public validation functions and the `ln G_i` builders of the nested logit on the same
+    specification: → {'check_partition': bool, 'check_intersection': bool, '<builder>': 'ok'|error kind}"""
+    _quiet()
+    from biogeme import models
+    from biogeme.nests import NestsForNestedLogit
+
+    n = case['nests']
+    out = {}
+
+    def build():
+        # the object is built anew for every call (mk_nests on tuple syntax returns the items)
+        items = mk_nests({**case, 'nests': {**n, 'syntax': 'tuple' if n['syntax'] == 'tuple' else 'object_bare', 'reuse': False}})
+        cs = list(n['choice_set']) if n['syntax'] == 'object' else list(case['alts'])
+        return NestsForNestedLogit(choice_set=cs, tuple_of_nests=items)
+
+    try:
+        obj = build()
+        out['check_partition'] = bool(obj.check_partition()[0])
+        out['check_intersection'] = bool(obj.check_intersection()[0])
+        alone = sorted(int(a) for a in obj.alone)
+    except Exception as e:  # noqa: BLE001
+        return {'err': core.exc_kind(e), 'msg': f'{type(e).__name__}: {e}'[:300]}
+    V = {a: mk_util(u) for a, u in zip(case['alts'], case['util'])}
+    av = mk_av(case)
+    for name, call in (('get_mev_for_nested', lambda o: models.get_mev_for_nested(V, av, o)),
+                       ('get_mev_for_nested_mu', lambda o: models.get_mev_for_nested_mu(V, av, o, 1.5)),
+                       ('get_mev_generating_for_nested', lambda o: models.get_mev_generating_for_nested(V, av, o))):
+        try:
+            call(build())
+            out[name] = 'ok'
+        except Exception as e:  # noqa: BLE001
+            out[name] = core.exc_kind(e)
+    out['alone'] = alone
+    return out
+
+
+def check_nest_orders(ctx, res, case, with_model=True):
+    fam = case['family']
+    nested = fam in ('nested', 'nestedmu')
+    base_lists = [nest_members(m) for m in case['nests']['list']]
+    shared = shared_alternatives(base_lists) if nested else []
+    kind = case.get('structure', 'valid')
+    res.tally(f'nest orders: {kind}')
+    res.tally(f'nest orders: nests={len(base_lists)}')
+    res.count({k: v for k, v in case.items() if k != 'orders'}, nontrivial=True)
+    where = where_of(case) + ' (nest listing order)'
+    first = None            # (order, outcome, values) of the first listing order
+    reported = set()
+    # the outcome (accepted / refused) is asked for every listing order; the values are evaluated for the
+    # first one, the last one and one in between (all of them once something is already wrong)
+    evaluated = {0, len(case['orders']) - 1, (1 + len(case['nests']['list'])) % len(case['orders'])}
+    for pos, order in enumerate(case['orders']):
+        c = permuted(case, order)
+        listing = [nest_members(m) for m in c['nests']['list']]
+        desc = {**c, 'listing_order': order}
+        outs = {log: real_outcome(c, log) for log in (False, True)}
+        # every entry point gives the same answer
+        if outs[False][0] != outs[True][0] and 'entry' not in reported:
+            reported.add('entry')
+            res.violate(f'{fam}: the probability and the log-probability function disagree on whether the nests {listing} are acceptable',
+                        desc, {'probability': outs[False], 'log': outs[True]}, 'the same outcome', where=where)
+        got = outs[False][0] if outs[False][0] != 'ok' else outs[True][0]
+        # the nested logit is defined on partitions only
+        if nested and shared and got == 'ok' and 'accept' not in reported:
+            reported.add('accept')
+            rv = real_values(c)
+            res.violate(
+                f'{fam}: accepts nests that are not a partition: alternatives {shared} belong to two nests in {listing} '
+                '(the nested logit is not defined; the value returned depends on which of the two nests is listed last)',
+                desc, fmt(rv['ok']) if 'ok' in rv else rv.get('msg'), 'BiogemeError (invalid definition of the nests)', where=where)
+        vals = None
+        if got == 'ok' and (pos in evaluated or reported or case.get('all_orders')):
+            rv = real_values(c)
+            if 'err' in rv:
+                got = rv['err']
+            else:
+                vals = rv['ok']
+        if first is None:
+            first = (order, got, vals, listing)
+        else:
+            o0, g0, v0, l0 = first
+            if g0 != got and 'outcome' not in reported:
+                reported.add('outcome')
+                res.violate(
+                    f'{fam}: the same nest structure is {"accepted" if g0 == "ok" else "refused (" + g0 + ")"} when listed as {l0} and '
+                    f'{"accepted" if got == "ok" else "refused (" + got + ")"} when listed as {listing}',
+                    {**desc, 'other_listing_order': o0}, got, g0, where=where)
+            elif vals is not None and v0 is not None and 'values' not in reported:
+                for a in case['alts']:
+                    if any(not is_close(x, y) for x, y in zip(vals[a], v0[a])):
+                        reported.add('values')
+                        res.violate(
+                            f'{fam}: probability of alternative {a} depends on the order in which the nests are listed ({l0} / {listing})',
+                            {**desc, 'other_listing_order': o0}, vals[a], v0[a], where=where)
+                        break
+        if nested:
+            v = real_validation(c)
+            if 'err' not in v and with_model:
+                def cb_val(ans, c=c, v=v):
+                    a = ans[0]
+                    got_m = a.get('error') or [a.get('ok'), sorted(a.get('alone') or [])]
+                    if got_m != [v['check_partition'], v['alone']]:
+                        res.diverge(f'{fam}: check_partition() and the alone alternatives of the nests {[nest_members(m) for m in c["nests"]["list"]]}',
+                                    c, got_m, [v['check_partition'], v['alone']], where='nests.NestsForNestedLogit.check_partition')
+
+                ctx.batch.add_many([{'op': 'validate', 'kind': 'nested', 'alts': c['alts'], 'nests': nests_json(c)}], cb_val)
+            if 'err' not in v:
+                alone_exp = sorted(set(c['nests']['choice_set'] if c['nests']['syntax'] == 'object' else c['alts']) - {x for l in listing for x in l})
+                if kind != 'outside' and v['alone'] != alone_exp and 'alone' not in reported:
+                    reported.add('alone')
+                    res.violate(f'alone alternatives of the nests {listing}', desc, v['alone'], alone_exp, where='nests.Nests.alone (nest listing order)')
+                for name, val in v.items():
+                    if name == 'alone':
+                        continue
+                    exp = (not shared) if name.startswith('check_') else ('BiogemeError' if shared else 'ok')
+                    if kind != 'outside' and val != exp and name not in reported:
+                        reported.add(name)
+                        res.violate(
+                            f'{name}: answers {val!r} for the nests {listing}' + (f' (alternatives {shared} belong to two nests)' if shared else ' (a partition)'),
+                            desc, val, exp, where=(f'nests.NestsForNestedLogit.{name}' if name.startswith('check_') else f'models.{name}') + ' (nest listing order)')
+        if vals is not None and not (nested and shared):
+            # a valid structure: distribution facts for every listing order
+            for what, obs, exp in oracle_distribution(c, vals):
+                res.violate(f'{fam}: {what}', desc, {'observed': obs, 'p': fmt(vals)}, exp, where=where_of(case))
+        if with_model:
+            if vals is not None:
+                rl = real_values(c, log=True) if pos == 0 else {}
+                if 'ok' in rl:
+                    for what, obs, exp in oracle_log(c, vals, rl['ok']):
+                        res.violate(f'{fam}: {what}', desc, obs, exp, where=where_of(case) + ' (log version)')
+
+                def cb(ans, c=c, p=vals, lp=rl.get('ok')):
+                    compare_model(res, c, ans, p, lp)
+
+                ctx.batch.add_many(model_requests(c), cb)
+            elif got != 'ok':
+                def cb_err(ans, c=c, got=got, msg=outs[False][1] or outs[True][1]):
+                    exp = ans[0].get('error', 'ok')
+                    if exp != got:
+                        res.diverge(f'{fam}: outcome of a nest specification ({kind}) listed as {[nest_members(m) for m in c["nests"]["list"]]}',
+                                    c, exp, msg or got, where=where_of(c))
+
+                ctx.batch.add_many(model_requests(c)[:1], cb_err)
 
 
 # --------------------------------------------------------------------------- accepted oddities
@@ -983,6 +1264,36 @@ CORPUS_ORDERED = [
     {'family': 'ordered_probit', 'labels': [1, 2, 5, 9], 'rows': 2, 'cols': {'X0': [0.15, -1.0], 'X1': [0.0, 0.0], 'X2': [0.0, 0.0]},
      'x': {'k': 'lin', 'b': 2.0, 'name': 'b_x', 'fixed': 0, 'col': 'X0', 'c': 0.0}, 'tau': -0.5, 'diffs': [[2, 0.75], [5, 1.0]]},
 ]
+# nest structures with three nests, all listing orders (seeded agent2_C05_3: an overlap between nests
+# that are not neighbours in the tuple); a valid partition with an alone alternative; overlapping cnl nests
+_ALL3 = [[0, 1, 2], [0, 2, 1], [1, 0, 2], [1, 2, 0], [2, 0, 1], [2, 1, 0]]
+CORPUS_ORDERS = [
+    {'family': 'nested', 'alts': [14, 3, 27, 8, 40, 5], 'rows': 2, 'cols': {'X0': [0.5, -1.0], 'X1': [1.25, 0.25], 'X2': [-0.5, 0.75]},
+     'util': [{'k': 'var', 'col': 'X0'}, {'k': 'num', 'c': 0.25}, {'k': 'var', 'col': 'X1'}, {'k': 'num', 'c': -0.75}, {'k': 'var', 'col': 'X2'}, {'k': 'num', 'c': 1.0}],
+     'av': [{'k': 'num', 'v': 1}, {'k': 'col', 'vals': [1, 0]}, {'k': 'num', 'v': 1}, {'k': 'num', 'v': 1}, {'k': 'col', 'vals': [0, 1]}, {'k': 'num', 'v': 1}],
+     'nests': {'syntax': 'tuple', 'choice_set': [14, 3, 27, 8, 40, 5], 'list': [
+         {'mu': {'v': 1.5, 'form': 'num', 'name': 'ma'}, 'alts': [3, 14]},
+         {'mu': {'v': 2.25, 'form': 'beta_free', 'name': 'mb'}, 'alts': [27, 8]},
+         {'mu': {'v': 3.0, 'form': 'num', 'name': 'mc'}, 'alts': [40, 14]}]},
+     'stream': 'nest_orders', 'structure': 'overlap', 'orders': _ALL3},
+    {'family': 'nestedmu', 'alts': [14, 3, 27, 8, 40, 5], 'rows': 1, 'cols': {'X0': [0.5], 'X1': [1.25], 'X2': [-0.5]},
+     'util': [{'k': 'var', 'col': 'X0'}, {'k': 'num', 'c': 0.25}, {'k': 'var', 'col': 'X1'}, {'k': 'num', 'c': -0.75}, {'k': 'var', 'col': 'X2'}, {'k': 'num', 'c': 1.0}],
+     'av': [{'k': 'num', 'v': 1}, {'k': 'num', 'v': 0}, {'k': 'num', 'v': 1}, {'k': 'num', 'v': 1}, {'k': 'num', 'v': 1}, {'k': 'num', 'v': 1}],
+     'nests': {'syntax': 'object', 'choice_set': [5, 8, 3, 14, 27, 40], 'list': [
+         {'mu': {'v': 1.5, 'form': 'num', 'name': 'ma'}, 'alts': [3, 14]},
+         {'mu': {'v': 2.25, 'form': 'beta_fixed', 'name': 'mb'}, 'alts': [27]},
+         {'mu': {'v': 3.0, 'form': 'num', 'name': 'mc'}, 'alts': [40, 8]}]},
+     'mu': {'v': 0.75, 'form': 'num', 'name': 'mu_top'},
+     'stream': 'nest_orders', 'structure': 'valid', 'orders': _ALL3},
+    {'family': 'cnl', 'alts': [6, 2, 19, 11], 'rows': 1, 'cols': {'X0': [0.5], 'X1': [-0.25], 'X2': [1.0]},
+     'util': [{'k': 'var', 'col': 'X0'}, {'k': 'num', 'c': 0.25}, {'k': 'var', 'col': 'X1'}, {'k': 'num', 'c': -0.75}],
+     'av': [{'k': 'num', 'v': 1}, {'k': 'num', 'v': 1}, {'k': 'num', 'v': 0}, {'k': 'num', 'v': 1}],
+     'nests': {'syntax': 'object_bare', 'choice_set': [6, 2, 19, 11], 'list': [
+         {'mu': {'v': 1.5, 'form': 'num', 'name': 'ma'}, 'alphas': [[6, 0.5, 'num'], [2, 0.25, 'beta']]},
+         {'mu': {'v': 2.5, 'form': 'num', 'name': 'mb'}, 'alphas': [[19, 1.0, 'num'], [2, 0.75, 'num']]},
+         {'mu': {'v': 4.0, 'form': 'beta_fixed', 'name': 'mc'}, 'alphas': [[11, 1.0, 'num'], [6, 0.5, 'num']]}]},
+     'stream': 'nest_orders', 'structure': 'valid', 'orders': _ALL3},
+]
 # concrete inputs of the listed findings (replayed first on every run)
 CORPUS_FINDINGS = [
     {'family': 'logit', 'alts': [5, 2], 'rows': 1, 'cols': {'X0': [0.0], 'X1': [0.0], 'X2': [0.0]},
@@ -1007,6 +1318,14 @@ def check(ctx) -> Result:
             res.tally('corpus')
         check_python_path(ctx, res, CORPUS_FINDINGS[0])
         check_ordered(ctx, res, CORPUS_FINDINGS[1])
+        for c in CORPUS_ORDERS:
+            check_nest_orders(ctx, res, c)
+            res.tally('corpus')
+        for _ in range(ctx.n(10, 150)):
+            for fam in ('nested', 'nestedmu', 'nested', 'cnl', 'cnlmu'):
+                check_nest_orders(ctx, res, gen_structure(rng, fam))
+            if len(res.violations) > 20:
+                break
         n = ctx.n(40, 800)
         for _ in range(n):
             for fam in FAMILIES:
@@ -1055,7 +1374,9 @@ def search(ctx, res, broken):
     with core.scratch():
         for d in res.divergences[:10]:
             c = d.get('case')
-            if isinstance(c, dict) and c.get('family') in FAMILIES and 'malformed' not in c:
+            if isinstance(c, dict) and c.get('stream') == 'nest_orders':
+                check_nest_orders(ctx, r2, {**c, 'orders': c.get('orders') or gen_orders(rng, len(c['nests']['list']))}, with_model=False)
+            elif isinstance(c, dict) and c.get('family') in FAMILIES and 'malformed' not in c:
                 check_config(ctx, r2, c, shift_c=1.5, with_model=False)
         for i in range(60):
             if r2.violations:
@@ -1063,6 +1384,8 @@ def search(ctx, res, broken):
             for fam in FAMILIES:
                 check_config(ctx, r2, gen_case(rng, fam), shift_c=dyadic(rng, -4, 4) or 1.0, with_model=False)
             check_ordered(ctx, r2, gen_ordered(rng, rng.choice(ORDERED)), with_model=False)
+            for fam in ('nested', 'nestedmu', 'cnl', 'cnlmu'):
+                check_nest_orders(ctx, r2, gen_structure(rng, fam), with_model=False)
     ctx.batch.items.clear()
     known = {W_PY_UNAVAIL, W_ORDERED_ONE}
     res.violations.extend([v for v in r2.violations if v.get('where') not in known][:3])
@@ -1077,6 +1400,15 @@ def replay(ctx, obj):
             check_python_path(ctx, r, case)
         elif case.get('family') in ORDERED:
             check_ordered(ctx, r, case, with_model=False)
+        elif case.get('stream') == 'nest_orders':
+            # the stored case is one listing order; it is replayed against the other one (or all of them)
+            nn = len(case['nests']['list'])
+            ident = list(range(nn))
+            case.pop('listing_order', None)
+            case.pop('other_listing_order', None)
+            import itertools
+            orders = [list(q) for q in itertools.permutations(ident)] if nn <= 4 else gen_orders(core.rng_for('C05-replay', 0), nn)
+            check_nest_orders(ctx, r, {**case, 'orders': orders, 'all_orders': True}, with_model=False)
         elif case.get('family') in FAMILIES and 'malformed' not in case:
             sc = case.pop('shift', 1.5)
             check_config(ctx, r, case, shift_c=sc, with_model=False)
